@@ -269,6 +269,42 @@ def sharedAbandon (cf : Conf) (res : Res) (runs : List Nat) : Bool :=
       !(afterLastStart r res.trace).any (isStartOf q)
     else true))
 
+/-! ### the parallel scheduler's work distribution (C11) -/
+
+/-- `ParallelScheduler._number_of_threads` (executor.py:238-241) as pinned:
+`int(floor(cpu_count() / 2.5))` — zero for two cores -/
+def numThreadsPinned (cpu : Nat) : Nat := (2 * cpu) / 5
+
+/-- … repaired: at least one worker thread -/
+def numThreads (cpu : Nat) : Nat := max 1 ((2 * cpu) / 5)
+
+/-- `_determine_num_work_items_to_take` (executor.py:282-288): `max(1, floor(k / threads))` -/
+def perThread (threads k : Nat) : Nat := max 1 (k / threads)
+
+/-- `acquire_work` (executor.py:293-303): `None` when nothing is left, else
+`per_thread` runs popped from the end of the shared list (so the chunk is the
+reversed tail). Returns the chunk and what remains. -/
+def acquire (threads : Nat) (rem : List Nat) : Option (List Nat × List Nat) :=
+  if rem = [] then none
+  else
+    let num := perThread threads rem.length
+    some ((rem.drop (rem.length - num)).reverse, rem.take (rem.length - num))
+
+/-- the chunks handed out by successive `acquire_work` calls (whichever worker
+thread makes them); `fuel` bounds the number of calls -/
+def chunksAux (threads : Nat) : Nat → List Nat → List (List Nat)
+  | 0, _ => []
+  | fuel + 1, rem =>
+    match acquire threads rem with
+    | none => []
+    | some (c, rest) => c :: chunksAux threads fuel rest
+
+def chunks (threads : Nat) (rem : List Nat) : List (List Nat) := chunksAux threads rem.length rem
+
+/-- everything the worker threads are handed: nothing when there is no worker thread -/
+def handout (threads : Nat) (rem : List Nat) : List (List Nat) :=
+  if threads = 0 then [] else chunks threads rem
+
 /-! ### the data file as lines (C11) -/
 
 /-- one line of the data file: run, invocation, iteration, index of the
